@@ -12,6 +12,7 @@ import (
 	"sort"
 	"strings"
 	"sync"
+	"time"
 
 	"github.com/google/badwolf/storage"
 	"github.com/google/badwolf/storage/memory"
@@ -38,6 +39,7 @@ func universe(n int) []*triple.Triple {
 		model.T(model.N("/a/b", "c"), p, model.ON(b)),                 // 7
 		model.T(model.N("/a", "/bc"), p, model.ON(b)),                 // 8 type/id boundary moved
 		model.T(a, p, model.OP(p)),                                    // 9 predicate-valued object
+		model.T(a, model.PT("p", time.Unix(0, 0).UTC()), model.ON(b)), // 10 temporal at the zero instant: still not the immutable "p"
 		model.T(a, p, model.OL(model.L(literal.Bool, true))),          // 10
 		model.T(a, p, model.OL(model.L(literal.Text, "true"))),        // 11 same bytes, other type
 		model.T(a, model.PI("q"), model.ON(b)),                        // 12 other predicate id
@@ -625,7 +627,7 @@ func main() {
 	r.MaybeReplay()
 	r.Assume("identity of triples is judged structurally through exported accessors (type, id, kind, instant, literal type+value), never through UUID() or String()")
 	r.Assume("successor states are produced by replaying the BFS-shortest operation path on a fresh memory store; merged model states are licensed by checking every transition out of every state")
-	level1(r, r.Pick(10, 14))
+	level1(r, r.Pick(11, 15))
 	level2(r, r.Pick(12, 30))
 	r.Set("rule", "BFS over StoreModel states; level 1: all subsets of the triple universe x all add/remove batches of size 0-2; level 2: store with 2 names, handle slots incl. stale handles, to fixpoint")
 	r.Finish()
